@@ -12,6 +12,8 @@
 //    <hex> impl=<true|false|parse_error|std_exception|other_exception>
 // -f flushes stdout after every line (used with the sanitizer build: the case after the last
 // printed line is the one that was running when the sanitizer stopped the program).
+// -c compact output for the bulk families: ONE line holding one character per case, in case
+// order:  t f p s o  = true false parse_error std_exception other_exception,  E = bad case line.
 #include <tao/pegtl.hpp>
 #include <tao/pegtl/contrib/json.hpp>
 
@@ -61,17 +63,21 @@ namespace
 int main( int argc, char** argv )
 {
    bool flush = false;
+   bool compact = false;
    const char* file = nullptr;
    for( int i = 1; i < argc; ++i ) {
       if( std::strcmp( argv[ i ], "-f" ) == 0 ) {
          flush = true;
+      }
+      else if( std::strcmp( argv[ i ], "-c" ) == 0 ) {
+         compact = true;
       }
       else {
          file = argv[ i ];
       }
    }
    if( file == nullptr ) {
-      std::fprintf( stderr, "usage: c14_impl [-f] <cases>\n" );
+      std::fprintf( stderr, "usage: c14_impl [-f] [-c] <cases>\n" );
       return 2;
    }
    std::ifstream f( file );
@@ -110,7 +116,11 @@ int main( int argc, char** argv )
          }
          buf[ i ] = static_cast< char >( static_cast< unsigned char >( a * 16 + b ) );
       }
-      if( bad ) {
+      if( compact ) {
+         const char* r = bad ? "E" : run_one( buf, n );
+         std::putchar( r[ 0 ] );  // first letters are distinct: true false parse_error std_exception other_exception
+      }
+      else if( bad ) {
          std::printf( "%s ERROR bad case\n", h );
       }
       else {
@@ -120,6 +130,9 @@ int main( int argc, char** argv )
       if( flush ) {
          std::fflush( stdout );
       }
+   }
+   if( compact ) {
+      std::putchar( '\n' );
    }
    return 0;
 }
